@@ -7,6 +7,8 @@ import (
 	"strings"
 
 	"github.com/vicanso/elton"
+	"github.com/vicanso/pike/config"
+	"github.com/vicanso/pike/location"
 )
 
 // suite fresh: upstream header sets through the real request path; observation = whether the
@@ -153,6 +155,17 @@ func suiteFresh(r *rng, n int) {
 		method := cr.pick(freshMethods)
 		status := freshStatus[cr.intn(len(freshStatus))]
 		h := genFreshHeader(cr)
+		// the location may ADD response headers (also Cache-Control): they are appended to what the upstream sent
+		// before the lifetime is computed, so the origin's own directives still count
+		hm := h
+		locHeaders := []string(nil)
+		if cr.chance(15) {
+			add := cr.pick([]string{"max-age=60", "private", "s-maxage=10", "public"})
+			locHeaders = []string{"Cache-Control:" + add}
+			hm = h.Clone()
+			hm["Cache-Control"] = append(hm["Cache-Control"], add)
+		}
+		location.Reset([]config.LocationConfig{{Name: "l1", Upstream: "u1", RespHeaders: locHeaders}})
 		// every upstream answer carries its own serial number: a response served twice is recognisable
 		serial := 0
 		p.setScript(func(c *elton.Context) error {
@@ -190,7 +203,7 @@ func suiteFresh(r *rng, n int) {
 		before2 := p.calls()
 		w2 := p.do(method, "h.test", uri, nil, nil)
 		upCalls2 := p.calls() - before2
-		emit("fresh", itoa(int64(i)), hx(method), itoa(int64(status)), hxHeader(h), "=>",
+		emit("fresh", itoa(int64(i)), hx(method), itoa(int64(status)), hxHeader(hm), "=>",
 			itoa(int64(stored)), itoa(life), itoa(int64(hfp)), itoa(int64(upCalls)), hx(w.Header().Get("X-Status")), itoa(int64(w.Code)),
 			itoa(int64(upCalls2)), hx(w2.Header().Get("X-Status")), hx(w.Body.String()), hx(w2.Body.String()))
 	}
